@@ -30,6 +30,22 @@ def runner_ctx(runner_id: str) -> RunnerContext:
     return RunnerContext(runner_cls="VerifRunner", runner_id=runner_id, pid=1, hostname="verif")
 
 
+
+class RunnerStub:
+    """`self` for calling single BaseRunner methods (e.g. _kill_and_reroute) without starting a runner: the attributes given, and every
+    other method / property looked up on BaseRunner itself, so that helper methods a maintainer extracts keep working."""
+
+    def __init__(self, **attrs):
+        self.__dict__.update(attrs)
+
+    def __getattr__(self, name):
+        from pynenc.runner.base_runner import BaseRunner
+        f = getattr(BaseRunner, name)
+        if isinstance(f, property):
+            return f.fget(self)
+        return f.__get__(self, type(self)) if hasattr(f, "__get__") else f
+
+
 def quiet() -> None:
     import warnings
     logging.disable(logging.CRITICAL)
